@@ -3,6 +3,8 @@ import Sismic.Proofs.EditInv
 import Sismic.Proofs.EditTree
 import Sismic.Proofs.EditRefs
 import Sismic.Proofs.EditValid
+import Sismic.Proofs.EditAcyclic
+import Sismic.Proofs.EditRemove
 import Sismic.Props.C02
 /-!
 # Property C16 — structural editing keeps a statechart sound; failed edits change nothing
@@ -27,8 +29,14 @@ bring a dangling reference in, and does so only if the client hands it one), and
 `initial` is a child of its compound state and every `memory` another child of the history state's
 parent (`validate_iff`), and `remove_state` (cascade included, also when it raises half-way),
 `move_state`, `rename_state`, the transition operations, and `add_state` of a state without
-`initial` / `memory` keep that true — so does every session of them.  Acyclicity of the parent
-relation beyond "nobody is its own parent" is decided by the tie only (DESIGN.md §7).
+`initial` / `memory` keep that true — so does every session of them.  And the statechart stays **one
+tree**: the parent relation stays acyclic (`Ranked`: a rank decreases from every state to its
+parent; with the consistency above — one root, every state a child of its parent — that is a
+tree) under all seven operations and every session; for `move_state` this is exactly what its check
+`new_parent in [name] + descendants_for(name)` is for, `descendants_for` (breadth-first, as the code
+computes it) being complete on a consistent acyclic statechart (DESIGN.md §7).  And the effect of
+`remove_state` is exactly the documented one: the subtree of the state and the transitions touching
+it disappear, nothing else changes (`remove_state_removes_exactly_the_subtree`).
 -/
 namespace Sismic.C16
 open Sismic.Chart
@@ -192,6 +200,69 @@ theorem validate_passes_after_add (c : Chart) (s : StateDef) (p : Option Name) (
     **`validate()` passes afterwards.** -/
 theorem any_edit_session_keeps_validate_passing (ops : List EditOp) (c : Chart) (ht : Tidy c) (hv : c.validate = true)
     (hops : ∀ op ∈ ops, op.Bare) : (c.applyEdits ops).validate = true := applyEdits_validate ops c ht hv hops
+
+/-! ### still one tree -/
+
+/-- **`move_state` cannot close a cycle**: the new parent is outside the subtree that moves — which
+    is what `descendants_for`, complete on a consistent acyclic statechart, is asked for. -/
+theorem still_a_tree_after_move (c : Chart) (a b : Name) (ht : Tidy c) (hc : c.Ranked) (h : (c.moveState a b).1 = .ok ()) :
+    (c.moveState a b).2.Ranked := moveState_ranked c a b ht hc h
+
+theorem still_a_tree_after_add (c : Chart) (s : StateDef) (p : Option Name) (ht : Tidy c) (hc : c.Ranked)
+    (h : (c.addState s p).1 = .ok ()) : (c.addState s p).2.Ranked := addState_ranked c s p ht hc h
+
+theorem still_a_tree_after_rename (c : Chart) (a b : Name) (ht : Tidy c) (hc : c.Ranked)
+    (h : (c.renameState a b).1 = .ok ()) : (c.renameState a b).2.Ranked := renameState_ranked c a b ht hc h
+
+/-- whatever `remove_state` leaves, also when it raises half-way -/
+theorem still_a_tree_after_remove (c : Chart) (n : Name) (ht : Tidy c) (hc : c.Ranked) : (c.removeState n).2.Ranked :=
+  (removeState_rankedE c n (hc.rankedE ht)).ranked
+
+/-- **Whatever a client does with the editing API** — any sequence of the seven operations, each
+    succeeding or raising — **the parent relation stays acyclic**; together with
+    `any_edit_session_keeps_dictionaries_consistent` (one root, children ⇔ parent): still one tree. -/
+theorem any_edit_session_keeps_the_tree (ops : List EditOp) (c : Chart) (ht : Tidy c) (hc : c.Ranked) :
+    Tidy (c.applyEdits ops) ∧ (c.applyEdits ops).Ranked :=
+  ⟨applyEdits_tidy ops c ht, (applyEdits_rankedE ops c ht (hc.rankedE ht)).ranked⟩
+
+/-- …in particular every statechart built from `Statechart(name)` by the API alone is a tree. -/
+theorem built_charts_are_trees (nm : String) (ops : List EditOp) :
+    (({ name := nm, children := [(none, [])] } : Chart).applyEdits ops).Ranked :=
+  (applyEdits_rankedE ops _ (empty_tidy nm) ⟨fun _ => 0, by intro e he; simp at he⟩).ranked
+
+/-! ### what `remove_state` removes -/
+
+/-- **`remove_state(n)` removes its descendants and every transition touching them — and nothing
+    else**: afterwards the states are those that were not in the subtree of `n` (`Sub c n`: `n` or a
+    descendant), each with the parent it had; the transitions are, in their old order, those whose
+    source and target are outside that subtree. -/
+theorem remove_state_removes_exactly_the_subtree (c : Chart) (n : Name) (ht : Tidy c) (hc : c.Ranked)
+    (h : (c.removeState n).1 = .ok ()) :
+    (∀ x, (c.removeState n).2.hasState x = true ↔ (c.hasState x = true ∧ ¬ Sub c n x)) ∧
+    (∀ x, ¬ Sub c n x → (c.removeState n).2.parentFor x = c.parentFor x) ∧
+    (c.removeState n).2.transitions.Sublist c.transitions ∧
+    (∀ t, t ∈ (c.removeState n).2.transitions ↔
+      (t ∈ c.transitions ∧ ¬ Sub c n t.source ∧ ∀ tg, t.target = some tg → ¬ Sub c n tg)) := by
+  have hw := removeState_without c n ht hc h
+  have one : ∀ x, (∀ k ∈ [n], ¬ Sub c k x) ↔ ¬ Sub c n x := by
+    intro x
+    constructor
+    · exact fun hx => hx n (List.mem_singleton.2 rfl)
+    · intro hx k hk
+      rw [List.mem_singleton] at hk
+      rw [hk]; exact hx
+  refine ⟨fun x => by rw [hw.states x, one x], fun x hx => hw.parent x ((one x).2 hx), ?_, ?_⟩
+  · rw [hw.transitions]; exact List.filter_sublist
+  · intro t
+    rw [hw.transitions, List.mem_filter, keepOutside_iff, one t.source]
+    constructor
+    · exact fun ⟨a, b, d⟩ => ⟨a, b, fun tg e => (one tg).1 (d tg e)⟩
+    · exact fun ⟨a, b, d⟩ => ⟨a, b, fun tg e => (one tg).2 (d tg e)⟩
+
+/-! non-vacuity: the example statechart of C02 is acyclic -/
+example : C02.exChart.Ranked := by
+  obtain ⟨r, hr, _⟩ := (wfB_sound C02.exChart (by decide)).tree.rank
+  exact ⟨r, hr⟩
 
 /-! non-vacuity: the example statechart of C02 is tidy and valid -/
 example : Tidy C02.exChart ∧ C02.exChart.validate = true :=
